@@ -31,6 +31,10 @@ func (self ValueAnyObject) Display() (string, *VmInterrupt) {
 }
 
 func (self ValueAnyObject) IsEqual(other Value) (bool, *VmInterrupt) {
+	// values of different kinds are never equal (mixed kinds occur inside any-objects)
+	if other.Kind() != self.Kind() {
+		return false, nil
+	}
 	otherObj := other.(ValueAnyObject)
 
 	for key, value := range self.FieldsInternal {
